@@ -794,7 +794,7 @@ namespace BitSerializer::MsgPack::Detail
 				binarySize = sz32;
 				return true;
 			}
-			HandleMismatchedTypesPolicy(mInputData, mPos, ReadValueType(), mSerializationOptions.mismatchedTypesPolicy);
+			// Not a binary array, the value stays unread (the caller can try to load it as a regular array)
 			return false;
 		}
 		throw ParsingException("No more values to read", 0, mPos);
@@ -1399,6 +1399,8 @@ namespace BitSerializer::MsgPack::Detail
 				binarySize = sz32;
 				return true;
 			}
+			// Not a binary array, the value stays unread (the caller can try to load it as a regular array)
+			return false;
 		}
 		throw ParsingException("No more values to read", 0, mBinaryStreamReader.GetPosition());
 	}
